@@ -6,3 +6,11 @@ import PycommProps.C14
 #print axioms Pycomm.C14.time_reply_decodes
 #print axioms Pycomm.C14.set_time_request
 #print axioms Pycomm.C14.reply_data_returned
+#print axioms Pycomm.C14.generic_connected_e2e
+#print axioms Pycomm.C14.generic_connected_generic_object_e2e
+#print axioms Pycomm.C14.generic_unconnected_e2e
+#print axioms Pycomm.C14.generic_ucs_e2e
+#print axioms Pycomm.C14.generic_ucs_hops_e2e
+#print axioms Pycomm.C14.generic_typed_e2e
+#print axioms Pycomm.C14.set_then_get_plc_time_e2e
+#print axioms Pycomm.C14.set_then_get_plc_time_ops
